@@ -3108,3 +3108,8 @@ def box_into_vec(m, a, c):
 @model("<str as SliceExt>::to_tendril")
 def str_to_tendril(m, a, c):
     return Tendril(list(as_str(a[0]).ch))
+
+
+@model("util::str::to_escaped_string", "to_escaped_string")
+def to_escaped_string(m, a, c):
+    return Opaque("escaped-string")          # Debug formatting for parse-error messages; only ever handed to the sink
